@@ -60,6 +60,60 @@ fn prop_path_hash(c: &StrCase, ctx: &Ctx) -> PResult {
     Ok(())
 }
 
+thread_local! {
+    /// an empty index and an empty index2 file, parsed once per thread: the receivers of calculate_hash
+    static INDEXES: std::cell::RefCell<Option<(physis::sqpack::SqPackIndex, physis::sqpack::SqPackIndex)>> = const { std::cell::RefCell::new(None) };
+}
+
+/// The full-path hash (index2) and the folder / file-name pair (index) of the same strings.
+fn prop_index_hash(c: &StrCase, ctx: &Ctx) -> PResult {
+    use physis::sqpack::Hash;
+    let flipped = flip_case(&c.s, &c.flips);
+    let r: Result<(Hash, Hash, Hash, Hash), Failure> = INDEXES.with(|cell| {
+        let mut slot = cell.borrow_mut();
+        if slot.is_none() {
+            let dir = TmpDir::new("c12idx");
+            let mut made = vec![];
+            for index2 in [false, true] {
+                let p = dir.join(if index2 { "000000.win32.index2" } else { "000000.win32.index" });
+                std::fs::write(&p, crate::build::sqpack::index_file(0, -1, index2, &[], 1, true)).unwrap();
+                match guard("SqPackIndex::from_existing", || physis::sqpack::SqPackIndex::from_existing(p.to_str().unwrap()))? {
+                    Some(i) => made.push(i),
+                    None => return fail("index-rejected", "a well-formed empty index file was rejected"),
+                }
+            }
+            let i2 = made.pop().unwrap();
+            let i1 = made.pop().unwrap();
+            *slot = Some((i1, i2));
+        }
+        let (i1, i2) = slot.as_ref().unwrap();
+        guard("SqPackIndex::calculate_hash", || (i1.calculate_hash(&c.s), i2.calculate_hash(&c.s), i1.calculate_hash(&flipped), i2.calculate_hash(&flipped)))
+    });
+    let (h1, h2, f1, f2) = r?;
+    match h2 {
+        Hash::FullPath(h) => ensure_eq!(h, crc::jamcrc_lower(c.s.as_bytes()), "full-path-hash-differs", "index2 hash of {:?}", c.s),
+        other => return fail("full-path-hash-kind", format!("index2 hash of {:?} is {:?}", c.s, other)),
+    }
+    if let Some(pos) = c.s.rfind('/') {
+        match h1 {
+            Hash::SplitPath { name, path } => {
+                ensure_eq!((path, name), (crc::jamcrc_lower(c.s[..pos].as_bytes()), crc::jamcrc_lower(c.s[pos + 1..].as_bytes())), "split-path-hash-differs", "index (folder, name) hash of {:?}", c.s);
+                ctx.class("index-hash:with-folder");
+            }
+            other => return fail("split-path-hash-kind", format!("index hash of {:?} is {:?}", c.s, other)),
+        }
+    }
+    ensure!(f2 == h2, "full-path-hash-case-sensitive", "index2 hash of case-flipped {:?} = {:?}, of {:?} = {:?}", flipped, f2, c.s, h2);
+    ensure!(f1 == h1, "split-path-hash-case-sensitive", "index hash of case-flipped {:?} = {:?}, of {:?} = {:?}", flipped, f1, c.s, h1);
+    if flipped != c.s {
+        ctx.class("index-hash:case-flipped");
+    }
+    if c.s.len() >= 2 && c.s.bytes().any(|b| b.is_ascii_alphabetic()) {
+        ctx.nontrivial_hash(fnv64(c.s.as_bytes()) ^ 4);
+    }
+    Ok(())
+}
+
 fn prop_shader_crc(c: &StrCase, ctx: &Ctx) -> PResult {
     let got = guard("ShaderPackage::crc", || physis::shpk::ShaderPackage::crc(&c.s))?;
     let want = crc::crc32_init0(c.s.as_bytes());
@@ -159,12 +213,13 @@ fn prop_sha1(c: &FilesCase, ctx: &Ctx) -> PResult {
 pub fn property() -> Property {
     Property {
         id: "C12",
-        rule: "path-hash / shader-crc: ASCII strings (all 128 code points, both cases, length 0..4096) generated by proptest and compared with a bit-at-a-time CRC; letter-case flips must not change the path hash. sha1: files of every length 0..300 (0..1100 thorough) enumerated, plus random batches with lengths forced onto every padding boundary (55/56/63/64/119/120 mod 64) up to 256 KiB (4 MiB thorough), hashed through FileInfo::new and compared with a straight FIPS 180-4 implementation. Non-trivial: CRC input of length >= 2 containing a letter; SHA-1 input of length >= 56 (needs length padding to spill into a second block). Distinct by content hash.",
+        rule: "path-hash / shader-crc: ASCII strings (all 128 code points, both cases, length 0..4096) generated by proptest and compared with a bit-at-a-time CRC; letter-case flips must not change the path hash; the same for the path hashes an index (folder / file-name pair) and an index2 (full path) object computes with calculate_hash. sha1: files of every length 0..300 (0..1100 thorough) enumerated, plus random batches with lengths forced onto every padding boundary (55/56/63/64/119/120 mod 64) up to 256 KiB (4 MiB thorough), hashed through FileInfo::new and compared with a straight FIPS 180-4 implementation. Non-trivial: CRC input of length >= 2 containing a letter; SHA-1 input of length >= 56 (needs length padding to spill into a second block). Distinct by content hash.",
         assumptions: &["own CRC and SHA-1 validated against published check values at start-up", "Unicode lower-casing equals ASCII lower-casing on the ASCII inputs generated"],
         pre: None,
         post: None,
         parts: vec![
             Box::new(Part { name: "path-hash", driver: Driver::Gen(str_strategy, 1_200_000, 9_600_000), prop: prop_path_hash, exhaustive: false }),
+            Box::new(Part { name: "index-hash", driver: Driver::Gen(str_strategy, 600_000, 4_800_000), prop: prop_index_hash, exhaustive: false }),
             Box::new(Part { name: "shader-crc", driver: Driver::Gen(str_strategy, 600_000, 4_800_000), prop: prop_shader_crc, exhaustive: false }),
             Box::new(Part { name: "sha1-every-length", driver: Driver::Enum(sha_enum), prop: prop_sha1, exhaustive: true }),
             Box::new(Part { name: "sha1-random", driver: Driver::Gen(sha_strategy, 4_500, 36_000), prop: prop_sha1, exhaustive: false }),
